@@ -87,17 +87,20 @@ Fixpoint pad_vfuncs (n : nat) (out : list sfunction) : list sfunction :=
 Definition pad_to (target : N) (out : list sfunction) : list sfunction :=
   pad_vfuncs (N.to_nat (target - N.of_nat (List.length out))) out.
 
-Definition scan_index_attr (idx : option N) (a : gattr) : outcome (option N) :=
+(** "the last [name(<int>)] attribute, converted to usize with try_into" -- the shape shared by the
+    scans for index, vftable size and extern-value address *)
+Definition scan_int_attr (name : string) (acc : option N) (a : gattr) : outcome (option N) :=
   match a with
-  | AFn name [EInt i] =>
-    if String.eqb name "index" then
+  | AFn n [EInt i] =>
+    if String.eqb n name then
       match z_to_usize i with
-      | Some n => Ok (Some n)
-      | None => Err "failed to convert index attribute into usize"
+      | Some v => Ok (Some v)
+      | None => Err "failed to convert attribute into usize"
       end
-    else Ok idx
-  | _ => Ok idx
+    else Ok acc
+  | _ => Ok acc
   end.
+Definition scan_index_attr := scan_int_attr "index".
 
 Definition convert_one (R : registry) (scope : list path) (out : list sfunction) (f : gfunction)
   : outcome (list sfunction) :=
@@ -393,17 +396,7 @@ Definition scan_field_attr (st : option N * bool) (a : gattr) : outcome (option 
   | _ => Ok st
   end.
 
-Definition scan_vftable_size_attr (sz : option N) (a : gattr) : outcome (option N) :=
-  match a with
-  | AFn name [EInt v] =>
-    if String.eqb name "size" then
-      match z_to_usize v with
-      | Some n => Ok (Some n)
-      | None => Err "failed to convert vftable size attribute into usize"
-      end
-    else Ok sz
-  | _ => Ok sz
-  end.
+Definition scan_vftable_size_attr := scan_int_attr "size".
 
 Definition stmt_state := (list (option N * region) * option (list sfunction))%type.
 
@@ -692,17 +685,7 @@ Definition sem_new (ptr : N) : outcome sstate :=
   foldM (fun st ns => add_item st (predefined_item ns)) predefined_types
         {| st_modules := [([], default_module)]; st_reg := {| reg_types := []; reg_ptr := ptr |} |}.
 
-Definition scan_ev_attr (addr : option N) (a : gattr) : outcome (option N) :=
-  match a with
-  | AFn name [EInt v] =>
-    if String.eqb name "address" then
-      match z_to_usize v with
-      | Some n => Ok (Some n)
-      | None => Err "failed to convert address attribute into usize"
-      end
-    else Ok addr
-  | _ => Ok addr
-  end.
+Definition scan_ev_attr := scan_int_attr "address".
 Definition extern_value_of (ev : gexternvalue) : outcome sextern :=
   do addr <- foldM scan_ev_attr (gev_attrs ev) None;
   match addr with
